@@ -14,7 +14,7 @@ env.setup()
 
 from ..bfs import bfs  # noqa: E402
 from ..cli import run_cli  # noqa: E402
-from ..core import short_exc  # noqa: E402
+from ..core import digest, exception_origin_in_repo, short_exc  # noqa: E402
 from ..explore import Chooser, ScriptedGenerator, explore  # noqa: E402
 from ..screens import make_screen, snapshot, describe  # noqa: E402
 
@@ -109,6 +109,8 @@ def plan(tier, seed):
     for pi, v in enumerate(parents(tier)):
         for f in fr:
             items.append({"variant": [v[0], v[1], v[2], v[3]], "fraction": f})
+    for n in (130, 200, 257, 300):
+        items.append({"large": n, "fraction": 0.25})
     ps = parents(tier)
     for ci, cfg in enumerate(CLI_CONFIGS):
         for pi in range(2 if tier == "quick" else 6):
@@ -365,6 +367,47 @@ def context(parent):
     return (smap, tmap, thetas, reference_predictions(parent, thetas), sizes0)
 
 
+def run_large_item(item, col, tier):
+    """Sparse probe: a prepared simulation with n samples and n (drug, dose) conditions (n around 128 / 256), hold-out split
+    with the default answers, then one step of every kind from each half.  A stage that contains few names but large ids is
+    exactly what the test half is."""
+    n = item["n"]
+    rows = []
+    for i in range(n):
+        plate = "pobs" if i % 7 == 0 else ("pu1" if i % 2 else "pu2")
+        rows.append((f"s{n - 1 - i:04d}", plate, ((f"d{(i + n // 3) % n:04d}", 1.0 + (i % 3)), ("", 0.0) if i % 4 == 0 else (f"d{i:04d}", 1.0 + (i % 3))), round(0.05 + 0.9 * ((i * 37) % 101) / 101.0, 4), plate == "pobs"))
+    parent = make_screen(rows, control="")
+    ctx = context(parent)
+    train, test = R.create_plate_balanced_holdout_set_among_masked_plates(parent, item["fraction"], ScriptedGenerator(Chooser()))
+    tmpdir = env.scratch_dir("c03L")
+    try:
+        for half_name, root in (("train", train), ("test", test)):
+            if root.size == 0:
+                continue
+            stages = [([], root)]
+            for op in [("mask",), ("unmask",), ("saveload",)] + [("reveal", [p]) for p in unobserved_plate_ids(root)[:1]]:
+                try:
+                    stages.append(([list(op)], apply_op(root, op, tmpdir)))
+                except Exception as exc:  # noqa: BLE001
+                    if not exception_origin_in_repo(exc):
+                        raise
+                    col.refused += 1
+            for hist, st in stages:
+                col.evaluations += 1
+                col.states += 1
+                col.transitions += 1
+                case = {"large": n, "fraction": item["fraction"], "half": half_name, "history": hist}
+                res = check_screen(st, ctx, hist[0][0] if hist else "holdout")
+                if any(a < b for a, b in zip(sizes(st), ctx[4])):
+                    res.append(("sizes", f"embedding sizes {sizes(st)} are below the prepared simulation's {ctx[4]}"))
+                for suffix, msg in res[:2]:
+                    col.violation(f"C03|{suffix}|large-{hist[0][0] if hist else 'holdout-' + half_name}", f"{n} samples / conditions, {half_name} half, history {hist}: {msg}", case)
+                col.outcome("large", n, half_name, tuple(map(tuple, hist)), digest(snapshot(st)))
+                col.nontriv("large", n, half_name, str(hist))
+    finally:
+        shutil.rmtree(tmpdir, ignore_errors=True)
+
+
 def run_history(root, history, tmpdir):
     s = root
     for op in history:
@@ -373,6 +416,8 @@ def run_history(root, history, tmpdir):
 
 
 def run_item(item, col, tier):
+    if item.get("large"):
+        return run_large_item({"n": item["large"], "fraction": item["fraction"]}, col, tier)
     depth = None if tier == "thorough" else BOUNDS["quick"]["bfs_depth"]
     tmpdir = env.scratch_dir("c03")
     try:
@@ -473,6 +518,8 @@ def finish(total, tier):
 
 
 def replay(case, col):
+    if case.get("large"):
+        return run_large_item({"n": case["large"], "fraction": case["fraction"]}, col, "quick")
     item = case["item"]
     try:
         parent, train, test = prepare(item, Chooser(case["choices"]))
